@@ -139,6 +139,7 @@ static CO_ERR COTParaStoreWrite(struct CO_OBJ_T *obj, struct CO_NODE_T *node, vo
 static CO_ERR COTParaStoreInit (struct CO_OBJ_T *obj, struct CO_NODE_T *node)
 {
     CO_ERR result = CO_ERR_TYPE_INIT;
+    CO_ERR err;
     
     ASSERT_PTR_ERR(node, CO_ERR_BAD_ARG);
     ASSERT_PTR_ERR(obj, CO_ERR_BAD_ARG);
@@ -149,12 +150,14 @@ static CO_ERR COTParaStoreInit (struct CO_OBJ_T *obj, struct CO_NODE_T *node)
         /* check for number of parameter groups */
         if (CO_GET_SUB(obj->Key) == 0) {
 
-            /* load all parameters from NVM storage */
+            /* load all parameters from NVM storage; a fault in one
+             * group does not keep the other groups from being loaded
+             */
             result = CONodeParaLoad(node, CO_RESET_NODE);
-            if (result != CO_ERR_NONE) {
-                return (result);
+            err    = CONodeParaLoad(node, CO_RESET_COM);
+            if (result == CO_ERR_NONE) {
+                result = err;
             }
-            result = CONodeParaLoad(node, CO_RESET_COM);
         } else {
 
             /* check for max. optional parameter groups */
